@@ -130,9 +130,9 @@ def run(ctx, anchors=None):
     nosign = unknown = False
     for x in exits:
         gs = [astq.estr(c) for (c, t) in S.ast_guards(parser, x) if t]
+        if any("!= 43" in g for g in gs) and any("!= 45" in g for g in gs):
+            nosign = True      # neither '+' nor '-' (one `&&` condition or nested ifs)
         for g in gs:
-            if "!= 43" in g and "!= 45" in g and "&&" in g:
-                nosign = True
             if g.startswith("!") and len(g) < 8:
                 unknown = True
     ctx.inst(nosign, "R09.2", "reject-missing-sign", parser.loc(), "an entry without + or - reaches exit(1)")
